@@ -14,7 +14,7 @@ Fixpoint leqb {A} (f : A -> A -> bool) (a b : list A) : bool :=
   end.
 
 Definition serr_eqb (a b : serr) : bool :=
-  match a, b with EKey, EKey | EIndex, EIndex | EType, EType | EValue, EValue => true | _, _ => false end.
+  match a, b with EKey, EKey | EIndex, EIndex | EType, EType | EValue, EValue | EName, EName => true | _, _ => false end.
 
 Definition sres_eqb {A} (f : A -> A -> bool) (a b : sres A) : bool :=
   match a, b with Ok x, Ok y => f x y | Err x, Err y => serr_eqb x y | _, _ => false end.
